@@ -1,6 +1,7 @@
 package main
 
 import (
+	"time"
 	"encoding/json"
 	"errors"
 	"fmt"
@@ -593,13 +594,30 @@ func errKind(err error) string {
 }
 
 // guard runs f and converts a panic into a Result.
-func guard(f func() *Result) (res *Result) {
-	defer func() {
-		if r := recover(); r != nil {
-			res = &Result{Status: "panic", Msg: fmt.Sprint(r)}
-		}
+// caseTimeout bounds one case: code that no longer terminates is reported for the input that shows it
+// (the stuck goroutine cannot be stopped and keeps a core busy; the stream goes on)
+var caseTimeout = 90 * time.Second
+var timeoutCount = 0
+
+func guard(f func() *Result) *Result {
+	done := make(chan *Result, 1)
+	go func() {
+		var res *Result
+		defer func() {
+			if r := recover(); r != nil {
+				res = &Result{Status: "panic", Msg: fmt.Sprint(r)}
+			}
+			done <- res
+		}()
+		res = f()
 	}()
-	return f()
+	select {
+	case r := <-done:
+		return r
+	case <-time.After(caseTimeout):
+		timeoutCount++
+		return &Result{Status: "panic", Msg: fmt.Sprintf("timeout: no answer within %v (does not terminate?)", caseTimeout)}
+	}
 }
 
 func errResult(err error) *Result {
